@@ -1,5 +1,8 @@
 use crate::internal::{consts, MiniAllocator, ObjType, SectorInit};
 use std::io::{self, BufRead, Read, Seek, SeekFrom, Write};
+#[cfg(cfb_verif_sync)]
+use cfb_verif_sync::{Arc, RwLock, Weak};
+#[cfg(not(cfb_verif_sync))]
 use std::sync::{Arc, RwLock, Weak};
 
 //===========================================================================//
